@@ -276,8 +276,25 @@ func (b *Backends) AcquireBackend(namespace, name, port string) *Backend {
 
 // AcquireAuthBackend ...
 func (b *Backends) AcquireAuthBackend(ipList []string, port int, hostname string) *Backend {
+	return b.acquireAuthBackend(ipList, port, hostname, false)
+}
+
+// AcquireSecureAuthBackend is the TLS counterpart of AcquireAuthBackend. Plain and
+// TLS users of the same address do not share a backend, otherwise the protocol
+// of one of them would depend on who else declares the same address.
+func (b *Backends) AcquireSecureAuthBackend(ipList []string, port int, hostname string) *Backend {
+	backend := b.acquireAuthBackend(ipList, port, hostname, true)
+	backend.Server.Secure = true
+	backend.Server.SNI = fmt.Sprintf("str(%s)", hostname)
+	return backend
+}
+
+func (b *Backends) acquireAuthBackend(ipList []string, port int, hostname string, secure bool) *Backend {
 	sort.Strings(ipList)
 	key := fmt.Sprintf("%s:%d:%s", strings.Join(ipList, ","), port, hostname)
+	if secure {
+		key += ":tls"
+	}
 	backend := b.authBackends[key]
 	if backend == nil {
 		// the first name that is not in use: some of the former ones can have been removed
